@@ -81,6 +81,7 @@ type Entry struct {
 	AuthDone  bool // request arrived after the connection was authenticated (or no SASL)
 	memberID  string
 	scripted  string
+	longPoll  bool
 	hasScript bool
 }
 
@@ -123,6 +124,10 @@ type Cluster struct {
 	// ClientWritePoints makes every client-side network write a scheduling point; GateResponses
 	// withholds response bytes until Release is called (partial delivery under explorer control).
 	ClientWritePoints bool
+	Storm             bool // set when a request storm was detected (see serve)
+	stormAt           time.Duration
+	stormN            int
+	NoLongPoll        bool
 	GateResponses     bool
 
 	nextMember   int
@@ -262,6 +267,16 @@ func (c *Cluster) serve(sc *srvConn) {
 		c.mu.Lock()
 		e.Seq = len(c.Journal)
 		e.At = c.Now()
+		// request storm guard: a client that sends hundreds of requests at one virtual instant is
+		// busy-looping; the brokers stop answering so that virtual time can move on
+		if e.At == c.stormAt {
+			c.stormN++
+		} else {
+			c.stormAt, c.stormN = e.At, 0
+		}
+		if c.stormN > 400 {
+			c.Storm = true
+		}
 		e.AuthDone = sc.authed
 		c.Journal = append(c.Journal, e)
 		sc.pending = append(sc.pending, e)
@@ -278,6 +293,10 @@ func (c *Cluster) serve(sc *srvConn) {
 		}
 		if !(e.hasScript && (len(e.scripted) >= 3 && e.scripted[:3] == "err" || e.scripted == "drop")) {
 			c.holdIfNeeded(e)
+		}
+		if c.Storm {
+			e.Held = true
+			e.Answer = "stall"
 		}
 		c.mu.Unlock()
 		if auto {
